@@ -58,7 +58,7 @@ func (b *exampleBuilder) buildExampleForObjectNode(node *ischema.ObjectNode) ([]
 
 	buf.WriteByte('{')
 	children := node.Children()
-	length := len(children)
+	written := 0
 	for i, childNode := range children {
 		ex, err := b.Build(childNode)
 		if err != nil {
@@ -66,6 +66,8 @@ func (b *exampleBuilder) buildExampleForObjectNode(node *ischema.ObjectNode) ([]
 		}
 
 		if ex == nil {
+			// A recursion cut-off: the property is left out, so the separator must
+			// not depend on its position.
 			continue
 		}
 
@@ -74,13 +76,14 @@ func (b *exampleBuilder) buildExampleForObjectNode(node *ischema.ObjectNode) ([]
 			return nil, err
 		}
 
+		if written != 0 {
+			buf.WriteByte(',')
+		}
+		written++
 		buf.WriteByte('"')
 		buf.Write(k)
 		buf.WriteString(`":`)
 		buf.Write(ex)
-		if i+1 != length {
-			buf.WriteByte(',')
-		}
 	}
 	buf.WriteByte('}')
 	return buf.Bytes(), nil
@@ -127,8 +130,8 @@ func (b *exampleBuilder) buildExampleForArrayNode(node *ischema.ArrayNode) ([]by
 
 	buf.WriteByte('[')
 	children := node.Children()
-	length := len(children)
-	for i, childNode := range children {
+	written := 0
+	for _, childNode := range children {
 		ex, err := b.Build(childNode)
 		if err != nil {
 			return nil, err
@@ -138,10 +141,11 @@ func (b *exampleBuilder) buildExampleForArrayNode(node *ischema.ArrayNode) ([]by
 			continue
 		}
 
-		buf.Write(ex)
-		if i+1 != length {
+		if written != 0 {
 			buf.WriteByte(',')
 		}
+		written++
+		buf.Write(ex)
 	}
 	buf.WriteByte(']')
 	return buf.Bytes(), nil
